@@ -329,7 +329,7 @@ class FmtStr:
         '|'+on_blue(red('hey'))+'|'
         """
 
-        if "\x1b[" in s:
+        if "\x1b[" in s or "\x9b" in s:
             try:
                 tokens_and_strings = parse(s)
             except ValueError:
